@@ -133,6 +133,9 @@ func parse(byteData []byte) (*DisallowedCerts, error) {
 				err := errors.New("SST does not use ASN1 encoding")
 				return nil, err
 			}
+			if int64(len) > int64(bytesReader.Len()) {
+				return nil, errors.New("SST certificate entry exceeds the file")
+			}
 			certChain := make([]byte, len)
 			binary.Read(bytesReader, binary.LittleEndian, &certChain)
 			certs = append(certs, certChain)
@@ -145,7 +148,10 @@ func parse(byteData []byte) (*DisallowedCerts, error) {
 	disallowed.IssuerLists = map[string]*IssuerList{}
 
 	for i := range certs {
-		cert, _ := x509.ParseCertificate(certs[i])
+		cert, err := x509.ParseCertificate(certs[i])
+		if err != nil {
+			return nil, err
+		}
 		entry := &Entry{
 			SerialNumber: cert.SerialNumber,
 		}
